@@ -720,3 +720,11 @@ Proof.
     rewrite (gen_net_correct_bool m (map (lane j) inp) Hwf) in Hall by (rewrite map_length; exact Hlen).
     injection Hall as Hall. symmetry. exact Hall.
 Qed.
+
+Corollary safe_net : forall W m inp,
+  (0 < W)%Z -> wf_spatial_model m = true -> length inp = net_in m ->
+  exists out, execZ W (gen_net m) inp = Some out /\ length out = net_out m.
+Proof.
+  intros W m inp HW Hwf Hlen. destruct (gen_net_correct_words W m inp HW Hwf Hlen) as [out [He [Hl _]]].
+  exists out. split; assumption.
+Qed.
